@@ -83,17 +83,6 @@ def run(tier):
     ok = bool(pushes) and len(isf) == 1 and len(ext) == 1 and bool(lit) and all(lf.dominates(isf[0], x) and lf.dominates(ext[0][0], x) for x in pushes)
     rep.ob("walk.only-regular-lalrpop-files", "push dominated by is_file() and extension()==\"lalrpop\"", ok,
            "a path can be collected without the is_file and `.lalrpop` extension tests", key="walk-filter", file=lrel, line=lf.line, fn=lf.path)
-    # gate polarity: push unreachable when is_file is false / extension differs
-    for name, (bi, t) in (("is_file", (isf[0], lf.blocks[isf[0]]["t"])) if isf else ()), :
-        pass
-    if isf:
-        bi = isf[0]
-        for sb, bl in enumerate(lf.blocks):
-            tt = bl["t"]
-            if tt["k"] == "switch" and any(d[0] == "call" and d[2] == bi for d in origins(lf, tt["o"], follow_discr=True)) or \
-               (tt["k"] == "switch" and any(d[0] == "other" and d[1] >= 0 and lf.blocks[d[1]]["s"][d[2]]["r"]["k"] == "unop" and
-                                            isf[0] in {x[2] for x in origins(lf, lf.blocks[d[1]]["s"][d[2]]["r"]["o"]) if x[0] == "call"} for d in origins(lf, tt["o"]))):
-                pass
     hd = [(bi, t) for bi, t in lf.calls() if (callee_of(t) or "") == "lalrpop::build::handle_dangling_symlink_error"]
     okh = False
     if hd:
